@@ -7532,7 +7532,7 @@ tmcg_openpgp_armor_t CallasDonnerhackeFinneyShawThayerRFC4880::ArmorDecode
 		std::string data = in.substr(rpos + 2, cpos - rpos - 2);
 		tmcg_openpgp_octets_t decoded_data;
 		Radix64Decode(data, decoded_data);
-		if ((cpos + 6) < epos)
+		if (cpos < epos) // a checksum line is present
 		{
 			CRC24Encode(decoded_data, chksum);
 			if (chksum != in.substr(cpos + 1, 5))
